@@ -150,6 +150,9 @@ func ParseField(v reflect.Value, bytes []byte, params fieldParameters) error {
 	}
 	switch val := v; val.Kind() {
 	case reflect.Bool:
+		if len(bytes) <= talOff {
+			return fmt.Errorf("BOOLEAN without contents")
+		}
 		if parsedBool, parse_err := parseBool(bytes[talOff]); err != nil {
 			return parse_err
 		} else {
